@@ -424,9 +424,12 @@ def _check_distributed(cx, vec, region, spec, support, sel, form, tag):
             continue
         coef, e = spec[u]
         deg = sum(e)
-        gmax = float(np.abs(_mono_vals(e, X[support])).max()) if support.any() else 0.0
-        scale = f * abs(coef) * meas * max(gmax, 1e-300) if region.pieces else abs(coef) * f
-        scale = max(scale, 1e-300)
+        if region.pieces:
+            # natural scale: thickness factor x int |g| (floor: 1e-12 of measure x reach^degree, for densities vanishing on the region)
+            rmax = max(1.0, float(np.abs(X[support]).max())) if support.any() else 1.0
+            scale = f * abs(coef) * max(region.abs_mono(e), 1e-12 * meas * rmax ** deg)
+        else:
+            scale = abs(coef) * f
         gscale = max(gscale, scale)
         Rn = float(Fu.sum())
         Rex = f * coef * region.mono(e) if region.pieces else 0.0
@@ -790,8 +793,8 @@ def _run_beam(case):
                         vio.append(viol("stray_effect", f"beam {key0}: a stray node changes the load vector by {np.abs(vec - base).max():.3e}",
                                         unknown=u, sel=sname, form=form, **key0))
                     F, M = vecF(vec)
-                    gmax = max(float(np.abs(_mono_vals(e, X[support])).max()), 1e-300)
-                    scale = abs(coef) * Lr * gmax
+                    rmax = max(1.0, float(np.abs(X[support]).max()))
+                    scale = abs(coef) * max(region.abs_mono(e), 1e-12 * Lr * rmax ** sum(e))
                     I0 = coef * region.mono(e)
                     kk = dict(key0, unknown=u, sel=sname, form=form, mono=str(e), path="hermite" if hermit else "lagrange")
                     Rn = F.sum(0)
